@@ -208,9 +208,15 @@ prop('C12', level='other',
                  'wrong option-list shapes raise ValueError. Bounded so far: axis=0 and axis=1 (per-slice epoched analyses, '
                  'transposition) - all shapes up to 2x2 (3x3).')
 
-prop('C13', level='other', units=[], jobs=['epoch_df', 'group_epoched'],
-     explanation='Bounded so far: epoch_df exhaustively on synthetic tables (boundaries on cycle ends, empty epochs); '
-                 'compute_features_2d(axis=None) against flattened analysis + epoch_df, single option set and per-epoch lists.')
+prop('C13', level='other', units=[DF + 'epoch_df'], jobs=['epoch_df', 'group_epoched'],
+     unit_jobs={DF + 'epoch_df': ['epoch_df']},
+     explanation='Proved for an ARBITRARY epoch e and any number of epochs / rows (per-iteration postcondition of the loop in '
+                 'epoch_df): the window is (e*L, (e+1)*L] on the closing side extremum; the table built for it consists of exactly '
+                 'the cycles whose closing extremum lies in the window, in the original order, every value unchanged, every sample_* '
+                 'column reduced by e*L; the input table is untouched (frame). That every cycle lies in exactly one such window '
+                 '(partition) and that the tables are collected in epoch order is bounded (exhaustive small tables incl. boundaries on '
+                 'cycle ends and empty epochs); compute_features_2d(axis=None) - flatten, analyse once, epoch, optional per-epoch '
+                 're-labelling - is bounded (against flattened analysis + epoch_df, single option set and per-epoch lists).')
 
 OB = 'bycycle.objs.fit.'
 prop('C14', level='other',
@@ -230,8 +236,8 @@ prop('C15', level='other',
             F + 'shape.compute_symmetry', F + 'shape.compute_band_amp', F + 'cyclepoints.compute_cyclepoints',
             F + 'burst.compute_burst_features', F + 'burst.compute_amp_fraction', F + 'burst.compute_amp_consistency',
             F + 'burst.compute_period_consistency', F + 'burst.compute_monotonicity', F + 'burst.compute_burst_fraction',
-            DF + 'drop_samples_df', GF + 'compute_features_2d', GF + 'compute_features_3d', BU + 'recompute_edges'],
-     jobs=['purity', 'pipeline:C15', 'armed'],
+            DF + 'drop_samples_df', DF + 'epoch_df', GF + 'compute_features_2d', GF + 'compute_features_3d', BU + 'recompute_edges'],
+     jobs=['purity', 'pipeline:C15', 'armed', 'limit_df', 'epoch_df'],
      no_input_kinds=('frame',),
      explanation='Frame obligations (modifies = []) at every store and mutating call of the listed feature functions: a store must '
                  'reach an object allocated on the path (library allocation behaviour from the assumed numpy / pandas-3 copy-on-write '
